@@ -607,6 +607,10 @@ fn main() {
                 continue;
             }
         };
+        let wlog = hist["wlog"].as_bool().unwrap_or(false) && matches!(live.snap, Snap::Mem(_));
+        if wlog {
+            reset.insert("wlog".into(), json!(true));
+        }
         let h0 = heavy_mode != "none";
         reset.insert("heavy".into(), json!(h0));
         if h0 {
@@ -624,7 +628,29 @@ fn main() {
                     ev.insert(k.clone(), v.clone());
                 }
             }
+            if wlog {
+                if let Snap::Mem(b) = &live.snap {
+                    b.ctl.lock().unwrap().wlog = Some(Vec::new());
+                }
+            }
             let r = catch_unwind(AssertUnwindSafe(|| exec(&mut live, op, &dict, &mut ev, &values)));
+            if wlog {
+                if let Snap::Mem(b) = &live.snap {
+                    // the backend's write calls of this operation, in order; contiguous calls inside one sector
+                    // (or inside the 512-byte header) are merged
+                    let raw = b.ctl.lock().unwrap().wlog.take().unwrap_or_default();
+                    let slen: u64 = if hist["ver"].as_u64() == Some(3) { 512 } else { 4096 };
+                    let region = |o: u64| if o < 512 { 0 } else { 1 + o / slen };
+                    let mut merged: Vec<(u64, u64)> = Vec::new();
+                    for (o, n) in raw {
+                        match merged.last_mut() {
+                            Some(last) if last.0 + last.1 == o && region(last.0) == region(o) && region(o) == region(o + n - 1) => last.1 += n,
+                            _ => merged.push((o, n)),
+                        }
+                    }
+                    ev.insert("writes".into(), json!(merged.iter().map(|(o, n)| json!([o, n])).collect::<Vec<_>>()));
+                }
+            }
             let res = match r {
                 Ok(v) => v,
                 Err(p) => {
